@@ -321,7 +321,7 @@ func c01Profiles(family string, seed int64) []profSel {
 		}
 		return out
 	}
-	inners := []string{"edge", "array", "thresh", "comb", "runs", "runthresh", "full", "mixed"}
+	inners := []string{"edge", "array", "thresh", "comb", "runs", "runthresh", "longruns", "full", "mixed"}
 	keysets := gamma.KeySets
 	if behav.Thorough() {
 		for i, in := range inners {
@@ -384,8 +384,26 @@ func TestC01(t *testing.T) {
 		v  int
 	}
 	var jobs []job
+	// quick tier: every behaviour is replayed under 4 profiles, rotated over ALL
+	// (inner shape x key placement) combinations by behaviour index and seed, so that one
+	// run reaches every container encoding pairing instead of the same four profiles
+	var all []profSel
+	if !behav.Thorough() && family != "shiftflip" {
+		for _, in := range []string{"edge", "array", "thresh", "comb", "runs", "runthresh", "longruns", "full", "mixed"} {
+			for _, ks := range gamma.KeySets {
+				all = append(all, profSel{inner: in, keyset: ks})
+			}
+		}
+	}
 	for bi := range behs {
-		for _, ps := range profs {
+		use := profs
+		if all != nil {
+			use = nil
+			for k := 0; k < 4; k++ {
+				use = append(use, all[(bi*5+k*9+int(seed)*3)%len(all)])
+			}
+		}
+		for _, ps := range use {
 			for v := 0; v < nvar; v++ {
 				vv := v
 				if family == "range" && !behav.Thorough() {
